@@ -1,6 +1,7 @@
 import Fabio.Driver.Proto
 import Fabio.Model.C07
 import Fabio.Model.C07Spec
+import Fabio.Model.C07Chain
 import Fabio.Model.ServeHTTP
 import Fabio.Model.C12Parse
 namespace Fabio.Driver.C07
@@ -57,6 +58,16 @@ def groupJson (l : List (String × String)) : Json :=
 
 def isPanic (j : Json) : Bool := (j.getObjVal? "panic").toOption.isSome
 
+/-- fields added to the cases later: absent in older corpus lines, then the default -/
+def optObj (j : Json) (k : String) : Json := (j.getObjVal? k).toOption.getD Json.null
+def optStr (j : Json) (k : String) : String := (j.getObjValAs? String k).toOption.getD ""
+def optBool (j : Json) (k : String) : Bool := (j.getObjValAs? Bool k).toOption.getD false
+def optInt (j : Json) (k : String) : Int := (j.getObjValAs? Int k).toOption.getD 0
+
+/-- the proxy configuration beside the route (`pcfg` of the harness): is any optional stage switched on? -/
+def cfgOn (cfg : Json) : Bool :=
+  optStr cfg "span" ≠ "" || optStr cfg "reqid" ≠ "" || optBool cfg "log" || optBool cfg "stats" || optInt cfg "flush" ≠ 0
+
 /-! ### c07.url -/
 
 def notCompared : List String := hopNames ++ forwardingNames ++ framingNames
@@ -74,6 +85,11 @@ def urlH : Handler := fun inp impl => do
   let hdr0 ← pairs inp "hdr"
   let ws ← bool inp "ws"
   let body ← bytes inp "body"
+  -- configuration beside the route: none of it may show at the upstream, except the request-id header the operator
+  -- asked for (C08's), which is left out of the comparison like the forwarding headers
+  let cfg := optObj inp "cfg"
+  let reqid := canonKey (optStr cfg "reqid")
+  let dropId (l : List (String × String)) : List (String × String) := if reqid = "" then l else l.filter (·.1 ≠ reqid)
   let hdrs := hdr0.map (fun kv => (canonKey kv.1, kv.2)) ++
     (if ws then [("Upgrade", "websocket"), ("Connection", "Upgrade")] else [])
   let t : Target := { strip := strip, prepend := prepend, hostOpt := hostOpt, host := "UPSTREAM", rawQuery := tq }
@@ -83,7 +99,7 @@ def urlH : Handler := fun inp impl => do
   let up := (impl.getObjVal? "up").toOption.getD Json.null
   let sentSha := (impl.getObjValAs? String "sent_bsha").toOption.getD ""
   let upHdrAll ← if up.isNull then pure [] else kvPairs up "hdr"
-  let upHdr := upHdrAll.filter fun kv => !notCompared.contains kv.1
+  let upHdr := dropId (upHdrAll.filter fun kv => !notCompared.contains kv.1)
   let canonUp : Json :=
     if up.isNull then Json.null else
       Json.mkObj [("method", (up.getObjVal? "method").toOption.getD Json.null),
@@ -107,7 +123,7 @@ def urlH : Handler := fun inp impl => do
       | .forward h _ o =>
         (Json.mkObj [("status", if h == .ws then (101 : Int) else 200), ("hits", (1 : Int)),
           ("up", Json.mkObj [("method", o.method), ("uri", jb o.url.requestURI), ("host", o.host),
-                             ("hdr", groupJson (upstreamHeaders h o.method o.headers)),
+                             ("hdr", groupJson (dropId (upstreamHeaders h o.method o.headers))),
                              ("blen", (o.body.length : Int)), ("bsha", sentSha)])], h)
     -- the property's sentences on what the upstream recorded
     let upMethod := (up.getObjValAs? String "method").toOption.getD ""
@@ -122,11 +138,11 @@ def urlH : Handler := fun inp impl => do
     let uaNorm (l : List (String × String)) : List (String × String) :=
       let ua := headerGet l "User-Agent"
       (l.filter (·.1 ≠ "User-Agent")) ++ (if ua ≠ "" then [("User-Agent", ua)] else [])
-    let clientE2E := uaNorm (endToEnd listed hdrs)
+    let clientE2E := dropId (uaNorm (endToEnd listed hdrs))
     -- Accept-Encoding: gzip added by the Go transport for its own hop when the client named none is not counted
     let aeOwn := !isWS && headerGet hdrs "Accept-Encoding" = "" && headerGet hdrs "Range" = "" && method ≠ "HEAD"
     let upE2E0 := endToEnd [] upHdrAll
-    let upE2E := uaNorm (if aeOwn then upE2E0.erase ("Accept-Encoding", "gzip") else upE2E0)
+    let upE2E := dropId (uaNorm (if aeOwn then upE2E0.erase ("Accept-Encoding", "gzip") else upE2E0))
     let sPath := pathOK strip prepend client upath
     let sQuery := uquery.getD [] = expectedQuery tq query
     let sHost := upHost = expectedHost hostOpt "UPSTREAM" host
@@ -145,6 +161,7 @@ def urlH : Handler := fun inp impl => do
       else base ++ (if isWS then "+ws" else "") ++ (if rawPath ≠ [] then "+enc" else "")
            ++ (if corner then "+encslash" else "")
            ++ (if isWS && headerGet hdrs "User-Agent" = "" then "+noua" else "")
+           ++ (if cfgOn cfg || optBool inp "gzip" then "+cfg" else "")
     let nontrivial := stripApplies || prepend ≠ [] || hostOpt ≠ "" || tq ≠ [] || rawPath ≠ []
     return ({ model := m, agree := m == canonImpl, spec := spec, nontrivial := nontrivial, tag := tag } : Verdict).toJson
 
@@ -170,8 +187,12 @@ def bodyH : Handler := fun inp impl => do
   let chunks ← arr inp "chunks"
   let rchunked ← bool inp "rchunked"
   let announced ← interims inp "interim" false
-  let gz := (inp.getObjValAs? Bool "gzip").toOption.getD false
-  let expect := (inp.getObjValAs? Bool "expect").toOption.getD false
+  let gz := optBool inp "gzip"
+  let expect := optBool inp "expect"
+  let ae := optStr inp "ae"
+  let rce := optStr inp "rce"
+  let ctype := optStr inp "ctype"
+  let cfg := optObj inp "cfg"
   let g (k : String) : Json := (impl.getObjVal? k).toOption.getD Json.null
   if isPanic impl then
     return ({ model := Json.null, agree := false, spec := false, tag := "panic" } : Verdict).toJson
@@ -181,29 +202,54 @@ def bodyH : Handler := fun inp impl => do
   let gotInterim ← interims impl "got_interim" true
   -- model: the frame — the request reaches the upstream once with the client's method and body; the handler
   -- announces the upstream's informational responses and then its final status through `responseWriter`, whose
-  -- wrapped writer (net/http's) shows the client `clientView` of the calls it received; headers and body follow
+  -- wrapped writer (net/http's) shows the client `clientView` of the calls it received; headers and body follow.
+  -- With proxy.gzip.contenttype configured the gzip layer of the chain (`C07Chain.respond`, C17's model) decides
+  -- from the request's Accept-Encoding, the method, the status and the reply's own lines whether it compresses.
   let calls := (RW.run (announced.map (·.1) ++ [rstatus])).sentHeaders
   let (mInterim, mFinal) := clientView calls
   let mInterimFull := (announced.zip mInterim).map fun (a, c) => (c, a.2)
+  let reply : Fabio.Model.C07Chain.Reply :=
+    { interim := announced.map (·.1.toNat), status := rstatus.toNat, hdr := repHdr, chunks := [] }
+  let reqH : Fabio.Model.C17.Hdr := if ae = "" then [] else [("Accept-Encoding", [ae])]
+  let engaged := gz && Fabio.Model.C07Chain.gzipEngages (fun s => "text/".toList.isPrefixOf s.toList) (method == "HEAD") reqH reply
+  -- observed: the reply is labelled gzip although the upstream declared no coding — then the coding is fabio's own
+  -- and is undone before comparing (dec_*: what the harness got out of the gzip stream). A coding the upstream
+  -- declared itself is never undone: those bytes and that label are the upstream's.
+  let gotCE := (gotHdr.filter (·.1 = "Content-Encoding")).map (·.2)
+  let byFabio := gz && rce = "" && gotCE == ["gzip"]
+  let decOK := optBool impl "dec_ok"
+  let (cLen, cSha) := if byFabio then (g "dec_len", g "dec_sha") else (g "got_len", g "got_sha")
+  let gotE2E := if byFabio then gotHdr.filter (·.1 ≠ "Content-Encoding") else gotHdr
+  -- the gzip handler adds one `Vary: Accept-Encoding` line of its own (not after an informational response: the
+  -- reverse proxy clears the header map then)
+  let hdrOK := sameMultiset repHdr gotE2E || (gz && sameMultiset repHdr (gotE2E.erase ("Vary", "Accept-Encoding")))
+  let gotShown := if hdrOK then repHdr else gotE2E
+  -- the same for an informational response: the first one goes out with the handler's `Vary` line
+  let interimOK (ab : (Int × List (String × String)) × (Int × List (String × String))) : Bool :=
+    ab.1.1 == ab.2.1 && (sameMultiset ab.1.2 ab.2.2 || (gz && sameMultiset ab.1.2 (ab.2.2.erase ("Vary", "Accept-Encoding"))))
+  let gotInterimShown := if sentInterim.length == gotInterim.length
+    then (sentInterim.zip gotInterim).map (fun ab => if interimOK ab then ab.1 else ab.2) else gotInterim
   let m := Json.mkObj [("hits", (1 : Int)), ("up_method", method), ("up_len", g "sent_len"), ("up_sha", g "sent_sha"),
-                       ("status", mFinal), ("interim", interimsJson mInterimFull),
+                       ("status", mFinal), ("interim", interimsJson mInterimFull), ("encoded", engaged),
                        ("got_len", g "rep_len"), ("got_sha", g "rep_sha"), ("got_hdr", groupJson repHdr)]
   let ci := Json.mkObj [("hits", g "hits"), ("up_method", g "up_method"), ("up_len", g "up_len"), ("up_sha", g "up_sha"),
-                        ("status", g "status"), ("interim", interimsJson gotInterim),
-                        ("got_len", g "got_len"), ("got_sha", g "got_sha"), ("got_hdr", groupJson gotHdr)]
+                        ("status", g "status"), ("interim", interimsJson gotInterimShown), ("encoded", byFabio),
+                        ("got_len", cLen), ("got_sha", cSha), ("got_hdr", groupJson gotShown)]
   -- the sentences: the upstream got the client's method and body; the client got the upstream's status, end-to-end
   -- headers and body bytes — and the informational responses the upstream sent, in order, each with its headers
-  let sameInterim := sentInterim.length == gotInterim.length &&
-    (sentInterim.zip gotInterim).all fun (a, b) => a.1 == b.1 && sameMultiset a.2 b.2
+  let sameInterim := sentInterim.length == gotInterim.length && (sentInterim.zip gotInterim).all interimOK
   let spec := g "hits" == (1 : Int) && g "up_method" == Json.str method &&
     g "up_len" == g "sent_len" && g "up_sha" == g "sent_sha" && g "sent_len" == Json.num reqlen &&
-    g "status" == Json.num rstatus && g "got_len" == g "rep_len" && g "got_sha" == g "rep_sha" &&
-    sameMultiset repHdr gotHdr && sameInterim
+    g "status" == Json.num rstatus && cLen == g "rep_len" && cSha == g "rep_sha" && (!byFabio || decOK) &&
+    hdrOK && sameInterim
   let big := reqlen > 65536 || (impl.getObjValAs? Int "rep_len").toOption.getD 0 > 65536
   let tag := (if chunks.size > 0 then "req-chunked" else if reqlen > 0 then "req-cl" else "req-empty") ++
              (if rchunked then "/rep-chunked" else "/rep-cl") ++ (if big then "/big" else "") ++
              (if announced.isEmpty then "" else "/1xx") ++ (if expect then "/expect" else "") ++
-             (if gz then (if g "decoded" == Json.bool true then "/gz-encoded" else "/gz") else "")
+             (if gz then (if byFabio then "/gz-encoded" else "/gz") else "") ++
+             (if rce ≠ "" then "/ce" else "") ++
+             (if "application/x-www-form-urlencoded".toList.isPrefixOf ctype.toList then "/form" else "") ++
+             (if cfgOn cfg then "/cfg" else "")
   return ({ model := m, agree := m == ci, spec := spec,
             nontrivial := reqlen > 0 || (impl.getObjValAs? Int "rep_len").toOption.getD 0 > 0 || !announced.isEmpty, tag := tag } : Verdict).toJson
 
